@@ -16,7 +16,7 @@ import (
 // assumption A-REAL.)
 //
 //verif:contract (*~/pkg/config/types.BandwidthQuantity).UnmarshalString
-//verif:props C18
+//verif:props C18 C01
 func verif_UnmarshalString(q *BandwidthQuantity, s string) {
 	s0, i0 := q.s, q.i
 	verif.ResetEvents()
@@ -46,7 +46,7 @@ func verif_UnmarshalString(q *BandwidthQuantity, s string) {
 // String is the kept text, Bytes the byte count.
 //
 //verif:lemma
-//verif:props C18
+//verif:props C18 C01
 func verif_quantity_accessors(q *BandwidthQuantity) {
 	verif.Assert(q.String() == q.s && q.Bytes() == q.i, "accessors_report_text_and_bytes")
 }
